@@ -84,6 +84,16 @@ def check_C18(ctx):
         add(["--bdump", "in.bcl"], prog, "file", tag="bdump")
         add(["--bdump=out.bcb", "-r", "in.bcl"], prog, "file", tag="bdump")
         add(["--bdump=out.bcb"], prog, "stdin", tag="bdump")
+    # the derived dump name for stems ending in any character of ".bcl" and with inner dots; I/O errors while dumping
+    for stem in ["tunnel", "public", "sql", "web.lb", "a.b.c", "bcl", "x.bcl", "lib", "c", ".bcl", "abc.b"]:
+        add(["--bdump", stem + ".bcl"], "ok", "none", extra_files={stem + ".bcl": PROGS["ok"]}, tag="bdumpname")
+        add(["--bdump", stem], "ok", "none", extra_files={stem: PROGS["ok"]}, tag="bdumpname")
+    for argv in (["--bdump=/dev/full", "in.bcl"], ["in.bcl", "--bdump=/dev/full", "-r"], ["--bdump=/nonexistent-dir/x.bcb", "in.bcl"],
+                 ["--bdump=.", "in.bcl"]):
+        for prog in ("ok", "runtime_err"):
+            add(argv, prog, "file", tag="dumpio")
+    add(["--bload", "/dev/null"], "ok", "none", tag="dumpio")
+    add(["--bload", "."], "ok", "none", tag="dumpio")
     res0 = None
     # model reading of argv
     mres = ctx.model([("cliargs", c["id"], F(*[a.encode("utf8") for a in c["argv"]])) for c in cases])
